@@ -34,6 +34,29 @@ fn main() {
             let hi: u64 = args[3].parse().unwrap();
             tables::tagsweep(lo, hi);
         }
+        "config" => {
+            // make_config + is_valid_config + getters; a panic is an observable outcome (exit 101)
+            std::panic::set_hook(Box::new(|_| {}));
+            match roughenough::config::make_config(&args[2]) {
+                Err(e) => println!("ERR {}", codec::render_err(&e)),
+                Ok(cfg) => {
+                    let valid = roughenough::config::is_valid_config(cfg.as_ref());
+                    println!(
+                        "OK port={} batch={} status={} health={} fault={} workers={} cs={} seedlen={} iface={} valid={}",
+                        cfg.port(),
+                        cfg.batch_size(),
+                        cfg.status_interval().as_secs(),
+                        cfg.health_check_port().map(|p| p as i64).unwrap_or(-1),
+                        cfg.fault_percentage(),
+                        cfg.num_workers(),
+                        cfg.client_stats_enabled() as u8,
+                        cfg.seed().len(),
+                        cfg.interface(),
+                        valid as u8
+                    );
+                }
+            }
+        }
         "run" => {
             let f = std::fs::File::open(&args[2]).expect("open case file");
             let out = std::io::stdout();
